@@ -687,7 +687,7 @@ func c04Index(r *vf.Run) {
 	b, _ := json.Marshal(spec)
 	specPath := filepath.Join(dir, "spec.json")
 	_ = os.WriteFile(specPath, b, 0o644)
-	rounds := r.Pick(1, 3)
+	rounds := r.Pick(1, 8)
 	for round := 0; round < rounds; round++ {
 		rid := fmt.Sprintf("index/round%d", round)
 		r.Progress(rid)
@@ -749,7 +749,7 @@ func c04Cache(r *vf.Run) {
 	dir := filepath.Join(r.Scratch, "cache")
 	mustMkdir(dir)
 	type cc struct{ goroutines, perG, keys, rounds int }
-	cfgs := []cc{{8, 12, 3, r.Pick(150, 1500)}, {4, 20, 2, r.Pick(100, 1000)}, {16, 6, 4, r.Pick(60, 600)}}
+	cfgs := []cc{{8, 12, 3, r.Pick(150, 5000)}, {4, 20, 2, r.Pick(100, 4000)}, {16, 6, 4, r.Pick(60, 2500)}, {32, 4, 3, r.Pick(20, 1500)}}
 	for i, c := range cfgs {
 		rid := fmt.Sprintf("cache/cfg%d", i)
 		if !r.Want(rid) {
